@@ -1,6 +1,7 @@
 SPECIFICATION Spec
 CONSTANTS
   Universe <- U
+  Hot <- HotFacts
   MaxFacts = 6
   Randomized = TRUE
 INVARIANT Emit
